@@ -71,6 +71,12 @@ theorem step_quiet (F : Plugin.Facts) (s : State) (m : Move) (ha : allowed s (.b
   | apiRelease ip k fault pfault => exact (withFaults_q s fault pfault).trans (apiRelease_q F _ ip k)
   | reload pools fault => simp [allowed] at ha
   | restart => simp [allowed] at ha
+  | resyncSnap => exact Quiet7.of_eq rfl rfl rfl rfl
+  | resyncRec ip fault pfault =>
+    dsimp only [step]
+    split
+    · exact Quiet7.refl s
+    · exact ((withFaults_q s fault pfault).trans (resyncOne_q F _ ip _)).trans (Quiet7.of_eq rfl rfl rfl rfl)
 
 /-- the effect of one allowed core move on configuration, coherence and pool counts -/
 theorem nextB_effect (F : Plugin.Facts) (s : State) (m : Move) (ha : allowed s (.base m) = true) :
